@@ -21,6 +21,7 @@ from easynetwork.lowlevel.api_sync.transports.socket import SocketStreamTranspor
 from easynetwork.protocol import StreamProtocol
 from easynetwork.serializers.abc import AbstractIncrementalPacketSerializer
 
+from vlib import netutil  # noqa: E402
 from vlib import faultsock, vselect
 from vlib.runner import HangDetected, cpu_guard
 
@@ -255,15 +256,7 @@ def run_async_variant(ctx, variant: str, rng: random.Random) -> str | None:
         loop.max_iterations = 300_000  # a scenario needs a few thousand iterations at most
         backend = AsyncIOBackend()
         if variant == "asyncio-adapter":
-            srv = socket.socket()
-            srv.setsockopt(socket.SOL_SOCKET, socket.SO_RCVBUF, 4096)
-            srv.bind(("127.0.0.1", 0))
-            srv.listen(1)
-            c = socket.socket()
-            c.setsockopt(socket.SOL_SOCKET, socket.SO_SNDBUF, 4096)
-            c.connect(srv.getsockname())
-            s, _ = srv.accept()
-            srv.close()
+            c, s = netutil.tcp_pair(sndbuf=4096, rcvbuf=4096, nodelay=False)
             s.setblocking(False)
             tr = await backend.wrap_stream_socket(c)
 
@@ -350,13 +343,7 @@ def run_sync_tls_variant(ctx, rng: random.Random) -> str | None:
 
     seqs = [_rand_chunks(rng) for _ in range(rng.randint(1, 3))]
     expected = b"".join(b"".join(c) for c in seqs)
-    srv = socket.socket()
-    srv.bind(("127.0.0.1", 0))
-    srv.listen(1)
-    lsock = socket.socket()
-    lsock.connect(srv.getsockname())
-    psock, _ = srv.accept()
-    srv.close()
+    lsock, psock = netutil.tcp_pair()
     peer = tlspeer.PumpedPeer(psock, tlspeer.server_context(rng.choice(["1.2", "1.3"])), server_side=True, steps=[("handshake",), ("read",), ("unwrap",)])
     clock = vselect.VirtualClock()
 
